@@ -25,6 +25,7 @@ pub struct Program {
     pub name: String,
     pub init: (usize, usize, usize), // cap, start, nprod
     pub pipe: bool,                  // the pipeline.rs queue pair instead of the track pair
+    pub probe: bool,                 // granting a thread that waits in front of a held lock is a choice
     pub prods: Vec<Vec<Op>>,
     pub cons: Vec<Op>,
     pub stop: Vec<Op>,
@@ -50,6 +51,7 @@ pub struct Outcome {
     pub preemptions: usize,
     pub steps: usize,
     pub blocked_tokens: usize,
+    pub probes: usize,
 }
 
 fn init_text(i: &(usize, usize, usize), pipe: bool) -> String { format!("{},{},{},{}", if pipe { "pinit" } else { "init" }, i.0, i.1, i.2) }
@@ -58,6 +60,9 @@ fn init_text(i: &(usize, usize, usize), pipe: bool) -> String { format!("{},{},{
 pub fn sig_tag(i: &(usize, usize, usize)) -> String {
     i.2.to_string()
 }
+
+#[allow(non_snake_case)]
+fn MAX_PROD_IDLE(case: &Case) -> bool { (0..MAX_PROD).all(|i| case.state(Tid::Prod(i)) == WState::Idle) }
 
 /// Property oracles on one finished schedule (independent of the model).
 fn oracles(case: Case, nprod_sig: &str, fails: &mut Vec<(String, String)>) {
@@ -86,6 +91,11 @@ fn oracles(case: Case, nprod_sig: &str, fails: &mut Vec<(String, String)>) {
     if case.consumer_stuck() && case.stop_called && case.stopper_idle() {
         fails.push((sig("stop-never-wakes-consumer"), "stop() returned, recv() future pending and its waker never invoked".into()));
     }
+    if case.consumer_stuck() && case.queue_len() != 0 && !case.stop_called && !closed
+        && MAX_PROD_IDLE(&case) {
+        fails.push((sig("data-never-wakes-consumer"), format!("recv() future pending and never woken although {} sample(s) are queued and no producer is inside an operation", case.queue_len())));
+    }
+    if let Some(d) = &case.lock_fail { fails.push((sig("lock-does-not-block"), d.clone())); }
     if case.timeout { fails.push((sig("step-timeout"), "a granted step did not reach its next yield point within 10 s".into())); }
     let (created, leaked, multi, clean) = case.finish();
     if !clean { fails.push((sig("teardown-hang"), "threads did not finish after the schedule".into())); }
@@ -101,18 +111,25 @@ pub fn exec_labels(init: (usize, usize, usize), pipe: bool, labels: &[Label]) ->
     let mut toks = vec![];
     let (mut pre, mut blocked) = (0, 0);
     let mut prev: Option<Tid> = None;
+    let mut executed: Vec<Label> = vec![];
+    let mut skip = 0usize; // explicit labels that already happened as hand-overs of a released lock
     for l in labels {
+        if skip > 0 { skip -= 1; continue; }
         if let Some(p) = prev { if p != l.tid && case.state(p) != WState::Idle { pre += 1; } }
         let t = case.step(l);
         if t.starts_with('B') { blocked += 1; }
         toks.push(t);
+        executed.push(l.clone());
         prev = Some(l.tid);
+        for (il, itok) in case.take_implicit() { executed.push(il); toks.push(itok); skip += 1; }
     }
+    let labels = &executed[..];
     toks.push(case.end_token());
+    let probes = case.probes;
     let mut fails = vec![];
     oracles(case, &sig_tag(&init), &mut fails);
     Outcome { pipe, input: format!("{} {}", init_text(&init, pipe), labels.iter().map(|l| l.text()).collect::<Vec<_>>().join(" ")),
-              output: toks.join(" "), fails, preemptions: pre, steps: labels.len(), blocked_tokens: blocked }
+              output: toks.join(" "), fails, preemptions: pre, steps: labels.len(), blocked_tokens: blocked, probes }
 }
 
 /// Run a program under a chooser: at each point the chooser sees the enabled labels (and the
@@ -130,6 +147,9 @@ fn exec_program(prog: &Program, choose: &mut dyn FnMut(usize, &[Label], &[Label]
         for t in prog.tids() {
             match case.avail(t) {
                 Avail::Runnable => enabled.push(Label { tid: t, op: None }),
+                // a thread in front of a held lock can be *probed* (really granted the step): in the
+                // programs that ask for it this is an ordinary choice of the exploration
+                Avail::Blocked if prog.probe && case.probeable(t) => enabled.push(Label { tid: t, op: None }),
                 Avail::Blocked => blocked.push(Label { tid: t, op: None }),
                 Avail::NeedsOp => {
                     let k = *next_op.get(&t).unwrap_or(&0);
@@ -149,15 +169,17 @@ fn exec_program(prog: &Program, choose: &mut dyn FnMut(usize, &[Label], &[Label]
         prev = Some(l.tid);
         labels.push(l);
         toks.push(tok);
+        for (il, itok) in case.take_implicit() { labels.push(il); toks.push(itok); }
     }
     toks.push(case.end_token());
+    let probes = case.probes;
     let mut fails = vec![];
     // a program that cannot finish: some thread is still inside an operation and nothing is enabled
-    let unfinished = prog.tids().iter().any(|t| matches!(case.state(*t), WState::Parked(_)));
+    let unfinished = prog.tids().iter().any(|t| matches!(case.state(*t), WState::Parked(_) | WState::InLock(_)));
     if unfinished { fails.push((format!("{}:{}:deadlock", if prog.pipe { "pipe" } else { "sched" }, sig_tag(&prog.init)), "threads parked at blocking points, none enabled".into())); }
     oracles(case, &sig_tag(&prog.init), &mut fails);
     Outcome { pipe: prog.pipe, input: format!("{} {}", init_text(&prog.init, prog.pipe), labels.iter().map(|l| l.text()).collect::<Vec<_>>().join(" ")),
-              output: toks.join(" "), fails, preemptions: pre, steps: labels.len(), blocked_tokens: blocked_n }
+              output: toks.join(" "), fails, preemptions: pre, steps: labels.len(), blocked_tokens: blocked_n, probes }
 }
 
 /// All interleavings (depth-first, re-executing from scratch), at most `limit`.
@@ -200,7 +222,7 @@ fn explore_random(prog: &Program, count: usize, rng: &mut Rng, sink: &mut dyn Fn
         let mut r = rng.fork();
         let mut cur: Option<Tid> = None;
         let out = exec_program(prog, &mut |_d, en, bl| {
-            if !bl.is_empty() && r.chance(1, 12) { return r.pick(bl).clone(); }
+            if !bl.is_empty() && r.chance(1, 30) { return r.pick(bl).clone(); }
             if let Some(c) = cur { if !r.chance(1, 3) { if let Some(l) = en.iter().find(|l| l.tid == c) { return l.clone(); } } }
             let l = r.pick(en).clone();
             cur = Some(l.tid);
@@ -219,12 +241,12 @@ pub fn programs(thorough: bool, rng: &mut Rng) -> Vec<(Program, usize, usize)> {
     // (program, exhaustive limit (0 = none), random count)
     let mut v: Vec<(Program, usize, usize)> = vec![];
     let p = |name: &str, init: (usize, usize, usize), prods: Vec<Vec<Op>>, cons: Vec<Op>, stop: Vec<Op>| Program {
-        name: name.into(), init, pipe: name.starts_with("pipe-"), prods, cons, stop };
+        name: name.into(), init, pipe: name.starts_with("pipe-"), probe: name.contains("probe"), prods, cons, stop };
     let k = if thorough { 5 } else { 1 };
     // exhaustive (all interleavings) only where the whole tree fits the tier; random walks otherwise
     let big = if thorough { 40_000 } else { 0 };
     // one producer, one consumer
-    // the complete send ‖ recv interleaving tree (14 586 schedules) is part of BOTH tiers
+    // the complete send ‖ recv interleaving tree (24 310 schedules) is part of BOTH tiers
     v.push((p("1p-send-recv", (1, 0, 1), vec![vec![s1(1)]], vec![Op::Recv], vec![]), 60_000, 0));
     v.push((p("1p-try-recv", (2, 0, 1), vec![vec![Op::TrySend(1)]], vec![Op::Recv], vec![]), big, 300 * k));
     v.push((p("1p-full-dropoldest", (1, 0, 1), vec![vec![s1(1), s1(2)]], vec![Op::Recv], vec![]), 0, 700 * k));
@@ -258,7 +280,15 @@ pub fn programs(thorough: bool, rng: &mut Rng) -> Vec<(Program, usize, usize)> {
     v.push((p("pipe-2p-try-send", (1, 0, 2), vec![vec![Op::TrySend(1)], vec![s1(1)]], vec![], vec![]), 1000, 0));
     v.push((p("pipe-2p-overflow", (1, 0, 2), vec![vec![s1(1), s1(2), Op::DropSrc], vec![Op::TrySend(1), s1(2), Op::DropSrc]], vec![Op::Recv, Op::Recv, Op::Recv], vec![]), 0, 600 * k));
     v.push((p("pipe-3p-cap3", (3, 0, 3), vec![vec![Op::Send(vec![1, 2])], vec![Op::TrySend(1), Op::DropSrc], vec![s1(1), s1(2)]], vec![Op::Recv, Op::Recv], vec![]), 0, 300 * k));
+    v.push((p("pipe-wrap-cap3", (3, usize::MAX - 2, 2), vec![vec![Op::Send(vec![1, 2, 3])], vec![s1(1), Op::TrySend(2)]], vec![Op::Recv, Op::Recv, Op::Recv], vec![]), 0, 150 * k));
     v.push((p("pipe-recvdrop", (2, 0, 1), vec![vec![s1(1), s1(2), Op::TrySend(3)]], vec![Op::Recv, Op::DropRecv], vec![]), 0, 300 * k));
+    // lock probing: a thread in front of a held lock is really granted the step; it must not come back
+    v.push((p("probe-2p-send-send", (2, 0, 2), vec![vec![s1(1)], vec![s1(1)]], vec![], vec![]), 3000, 0));
+    v.push((p("probe-2p-try-send", (1, 0, 2), vec![vec![Op::TrySend(1)], vec![s1(1)]], vec![], vec![]), 3000, 0));
+    v.push((p("pipe-probe-2p-send-send", (2, 0, 2), vec![vec![s1(1)], vec![s1(1)]], vec![], vec![]), 3000, 0));
+    v.push((p("probe-3p-cap1", (1, 0, 3), vec![vec![s1(1), s1(2)], vec![s1(1)], vec![Op::TrySend(1)]], vec![Op::Recv], vec![]), 0, 120 * k));
+    v.push((p("probe-dropoldest-recv", (1, 0, 1), vec![vec![s1(1), s1(2), s1(3)]], vec![Op::Recv, Op::Recv], vec![]), 0, 150 * k));
+    v.push((p("pipe-probe-dropoldest-recv", (1, 0, 2), vec![vec![s1(1), s1(2)], vec![s1(1), s1(2)]], vec![Op::Recv, Op::Recv], vec![]), 0, 120 * k));
     // random programs
     let nrand = if thorough { 120 } else { 20 };
     for i in 0..nrand {
@@ -297,7 +327,7 @@ fn child_main(args: &Args) {
     let mut out = out.lock();
     let job = std::env::var("VH_C20_CHILD").unwrap();
     let emit = |o: Outcome, out: &mut dyn Write| {
-        let _ = writeln!(out, "CASE {}\t{}\t{}\t{}\t{}\t{}", o.input, o.output, o.preemptions, o.steps, o.blocked_tokens, if o.pipe { "psched" } else { "sched" });
+        let _ = writeln!(out, "CASE {}\t{}\t{}\t{}\t{}\t{}\t{}", o.input, o.output, o.preemptions, o.steps, o.blocked_tokens, if o.pipe { "psched" } else { "sched" }, o.probes);
         for (s, d) in o.fails { let _ = writeln!(out, "FAIL {}\t{}\t{}", s, o.input, d); }
     };
     if let Some(rest) = job.strip_prefix("replay:") {
@@ -339,6 +369,8 @@ fn child_main(args: &Args) {
             let _ = writeln!(out, "COUNT exhaustive_schedules:{} {}", prog.name, total);
             let _ = writeln!(out, "COUNT exhaustive_incomplete_parts:{} {}", prog.name, (!all) as u8);
         }
+        // quick tier: 60 % of the listed random walks (keeps the tier well under two minutes on a loaded machine)
+        let nrand = &(if args.tier_thorough { *nrand } else { *nrand * 6 / 10 });
         if *nrand > 0 && part.map(|p| p.0 == 0).unwrap_or(true) {
             let mut r = Rng::new(args.seed ^ (idx as u64 + 1).wrapping_mul(0x9E37_79B9));
             explore_random(prog, *nrand, &mut r, &mut |o| emit(o, &mut out));
@@ -413,6 +445,7 @@ fn absorb(run: &mut Run, res: &ChildResult, nprod_sig: &str) {
             run.count_n("blocked_steps_granted", f[4].parse().unwrap_or(0));
             run.count(&format!("preemptions:{}", match pre { 0 => "0", 1..=2 => "1-2", 3..=5 => "3-5", _ => "6+" }));
             if f[1].contains("=eos") { run.count("schedules_with_eos"); }
+            run.count_n("lock_probes", f.get(6).and_then(|x| x.parse().ok()).unwrap_or(0));
             if f[1].contains(" P") { run.count("schedules_with_pending_recv"); }
             if f[1].contains("=v") { run.count("schedules_with_delivery"); }
             if f[0].contains(",18446744073709551") { run.count("schedules_across_index_wrap"); }
